@@ -561,6 +561,43 @@ fn boxed(ctx: &mut Ctx) {
             judge(ctx, "EFIMemoryMapTag::new_from_map", "", got, &want, vec![], false);
         });
     }
+    // blobs with an inner structure of their own: stored as supplied by every blob constructor
+    for (what, c) in bi::structured_blobs() {
+        leaf!(ctx, "SmbiosTag::new", format!("tables = {}", what), |ctx| {
+            let want = bi::enc_smbios(3, 2, &c);
+            let got = ctx.call("new", || { let t = SmbiosTag::new(3, 2, &c); built_bi(ctx_dummy(), &*t, &|b, t| battery::smbios(b, t)) });
+            judge(ctx, "SmbiosTag::new", what, got, &want, decode::tag(bi::SMBIOS, &want, true, true), false);
+        });
+        leaf!(ctx, "NetworkTag::new", format!("packet = {}", what), |ctx| {
+            let want = bi::tag(bi::NETWORK, &c);
+            let got = ctx.call("new", || { let t = NetworkTag::new(&c); built_bi(ctx_dummy(), &*t, &|b, t| battery::network(b, t)) });
+            judge(ctx, "NetworkTag::new", what, got, &want, decode::tag(bi::NETWORK, &want, true, true), false);
+        });
+        leaf!(ctx, "ElfSectionsTag::new", format!("section bytes = {}", what), |ctx| {
+            let want = bi::enc_elf(0, 64, 0, &c);
+            let got = ctx.call("new", || { let t = ElfSectionsTag::new(0, 64, 0, &c); built_bi(ctx_dummy(), &*t, &|_, _| {}) });
+            judge(ctx, "ElfSectionsTag::new", what, got, &want, vec![], false);
+        });
+    }
+    // memory areas that end exactly at 2^64 or wrap around it: the constructor stores its three arguments as they are
+    for (base, len) in [(0xFFFF_FFFF_FFFF_F000u64, 0x1000u64), (0x8000_0000_0000_0000, 0x8000_0000_0000_0000), (u64::MAX, 1), (u64::MAX, u64::MAX), (1, u64::MAX), (0xFFFF_FFFF, 1), (0xFFFF_F000, 0x1000)] {
+        for t in [1u32, 2, 3, 4, 5, 0, 6, 0x1000] {
+            leaf!(ctx, "MemoryArea::new", format!("base {:#x} length {:#x} type {}", base, len, t), |ctx| {
+                let ty = match t { 1 => MemoryAreaType::Available, 2 => MemoryAreaType::Reserved, 3 => MemoryAreaType::AcpiAvailable, 4 => MemoryAreaType::ReservedHibernate, 5 => MemoryAreaType::Defective, x => MemoryAreaType::Custom(x) };
+                let want = bi::enc_mmap(24, 0, &[(base, len, t, 0)]);
+                let got = ctx.call("new", || {
+                    let a = MemoryArea::new(base, len, ty);
+                    let tag = MemoryMapTag::new(&[a]);
+                    (a.start_address(), a.size(), u32::from(a.typ()), tag.as_bytes().to_vec())
+                });
+                match got {
+                    Out::Val((b2, l2, t2, bytes)) if b2 == base && l2 == len && t2 == t && bytes[..] == want[..] => ctx.class("ctor:area-stored"),
+                    Out::Val((b2, l2, t2, bytes)) => ctx.violation("c07/MemoryArea::new/stored", || format!("MemoryArea::new({:#x}, {:#x}, type {}): reads back as ({:#x}, {:#x}, type {}), tag bytes {:02x?}", base, len, t, b2, l2, t2, &bytes[16.min(bytes.len())..])),
+                    Out::Panic => ctx.violation("c07/MemoryArea::new/panic", || format!("MemoryArea::new({:#x}, {:#x}, type {}) / MemoryMapTag::new panicked", base, len, t)),
+                }
+            });
+        }
+    }
     // EFI maps with the stride real firmware reports (48) and with 40, read back through the descriptor iterator
     // (remaining length at every step)
     for ds in [48u32, 40, 56] {
